@@ -37,6 +37,30 @@ Theorem C09_panic_only_from_tally : forall inner chk slot reqs p,
 Proof. exact panic_only_from_tally. Qed.
 Print Assumptions C09_panic_only_from_tally.
 
+(** When the debug tally panics at request [k] ([run_prof_trace] keeps what
+    happened before): the wrapped allocator received exactly the first [k]
+    requests (none dropped, none added, nothing for request [k] or any later
+    one), the caller got the wrapped allocator's answers to those, the run on
+    the first [k] requests alone is the panic-free run of [C09_transparent],
+    and it is request [k]'s own tally update that panics. *)
+Theorem C09_forwarded_prefix : forall inner chk slot reqs log rets p,
+  run_prof_trace inner chk slot [] reqs = (log, rets, Panic p) ->
+  run_prof inner chk slot [] reqs = Panic p /\
+  exists k, (k < length reqs)%nat /\
+    log = firstn k reqs /\ length log = k /\
+    rets = responses inner [] (firstn k reqs) /\ length rets = k /\
+    (forall j, (j < k)%nat -> nth_error rets j = Some (inner (firstn (S j) reqs))) /\
+    exists sk r, run_prof inner chk slot [] (firstn k reqs) = Ok (firstn k reqs, rets, sk) /\
+                 nth_error reqs k = Some r /\ profiler_step chk sk r = Panic p.
+Proof. exact forwarded_prefix. Qed.
+Print Assumptions C09_forwarded_prefix.
+
+Theorem C09_trace_ok : forall inner chk slot reqs log rets s,
+  run_prof_trace inner chk slot [] reqs = (log, rets, Ok s) <->
+  run_prof inner chk slot [] reqs = Ok (log, rets, s).
+Proof. exact trace_ok. Qed.
+Print Assumptions C09_trace_ok.
+
 Theorem C09_release_total : forall inner slot reqs,
   exists s, run_prof inner false slot [] reqs = Ok (reqs, responses inner [] reqs, s).
 Proof. exact release_total. Qed.
